@@ -13,6 +13,8 @@ pub struct Expected {
     pub verdict: Option<usize>,
     pub oracle: &'static str,
     pub full: interp::Run,
+    /// pest's observation when pest is the oracle
+    pub pest: Option<PestObs>,
 }
 
 /// Compute the expected verdict for a whole-string partial parse.  None: the case is outside
@@ -62,11 +64,11 @@ pub fn expected(ctx: &mut Ctx, gi: &GInfo, rule: usize, input: &str) -> Option<E
                         ctx.ev.sample("model_disagreement", json!({"grammar": gi.g.id(), "rule": name, "input": show(input), "pest": format!("{:?}", pv), "reference": format!("{:?}", spec), "text": gi.g.text()}));
                     }
                 }
-                return Some(Expected { verdict: pv, oracle: "pest", full });
+                return Some(Expected { verdict: pv, oracle: "pest", full, pest: Some(p) });
             }
         }
     }
-    Some(Expected { verdict: spec, oracle: "reference", full })
+    Some(Expected { verdict: spec, oracle: "reference", full, pest: None })
 }
 
 /// Classify a deviation of the typed parser against the open known findings.
